@@ -1,8 +1,8 @@
 (* Whatever sorts the Flattener drops ("undone" in front of a group), every take and every windowed
    compute is handed exactly the order in effect and the partition at its position -- at any nesting
-   depth -- except behind an aggregate inside a group body (finding F44: the code ends the sort at an
-   aggregate only outside of groups) and inside a group nested in a group with a non-empty key (finding
-   F45: the inner group is partitioned by its own key only). *)
+   depth -- except inside a group nested in a group with a non-empty key (finding F45: the inner group
+   is partitioned by its own key only).  (The second exception of the previous round, F44, was repaired
+   by f809321: an aggregate ends the sort inside group bodies too.) *)
 From Coq Require Import List Bool Arith Lia.
 From PV Require Import Model.Flatten.
 Import ListNotations.
@@ -13,9 +13,7 @@ Section Proofs.
   Notation flat := (flat key empty).
   Notation carried_spec := (carried_spec key empty).
   Notation carried_of := (carried_of key).
-  Notation tame_agg := (tame_agg key).
   Notation tame_nest := (tame_nest key).
-  Notation has_agg := (has_agg key).
 
   Lemma carried_of_app a b : carried_of (a ++ b) = carried_of a ++ carried_of b.
   Proof. unfold Flatten.carried_of. apply flat_map_app. Qed.
@@ -25,119 +23,79 @@ Section Proofs.
   Lemma carried_of_win pt k o : carried_of (OWin pt k :: o) = (pt, k) :: carried_of o.
   Proof. reflexivity. Qed.
 
-  (* the last transform of the list is an aggregate *)
-  Definition is_agg (i : pitem key) : bool := match i with PAgg => true | _ => false end.
-  Fixpoint last_agg (p : list (pitem key)) : bool :=
-    match p with
-    | [] => false
-    | it :: r => match r with [] => is_agg it | _ => last_agg r end
-    end.
-  (* the one place where the carried sort AFTER the list differs from the specification inside the tame class:
-     a group body that ends in an aggregate (the group discards it) *)
-  Definition ends_agg (ing : bool) (p : list (pitem key)) : bool := ing && last_agg p.
-
-  Lemma last_agg_cons it r : r <> [] -> last_agg (it :: r) = last_agg r.
-  Proof. destruct r; [congruence | reflexivity]. Qed.
-
-  Lemma ends_agg_cons_false ing it r : is_agg it = false -> ends_agg ing (it :: r) = false -> ends_agg ing r = false.
-  Proof.
-    unfold ends_agg. destruct ing; [|reflexivity]. cbn [andb]. destruct r as [|x r']; [reflexivity|].
-    intros _ H. exact H.
-  Qed.
-
-  Lemma has_agg_last f p : has_agg (S f) p = false -> last_agg p = false.
-  Proof.
-    induction p as [|it r IH]; intro H; [reflexivity|].
-    cbn [Flatten.has_agg existsb] in H. apply orb_false_iff in H. destruct H as [H1 H2].
-    destruct r as [|x r'].
-    - cbn [last_agg]. destruct it; cbn [is_agg]; try reflexivity. discriminate.
-    - rewrite last_agg_cons by discriminate. apply IH. exact H2.
-  Qed.
-
-  (* PARTIAL (the full statement, without the two `tame` hypotheses, is refuted in Props/C03.v) *)
+  (* PARTIAL (the full statement, without the `tame_nest` hypothesis, is refuted in Props/C03.v) *)
   Theorem flat_carries_order_in_effect_partial : forall fuel und part s p,
-    tame_agg fuel (in_group part) p = true -> tame_nest fuel part p = true ->
+    tame_nest fuel part p = true ->
     carried_of (fst (flat fuel und part s p)) = fst (carried_spec fuel part s p) /\
-    (ends_agg (in_group part) p = false -> snd (flat fuel und part s p) = snd (carried_spec fuel part s p)).
+    snd (flat fuel und part s p) = snd (carried_spec fuel part s p).
   Proof.
-    induction fuel as [|f IH]; intros und part s p Ht Hn; [cbn in Ht; discriminate|].
+    induction fuel as [|f IH]; intros und part s p Hn; [cbn in Hn; discriminate|].
     destruct p as [|it rest]; [split; reflexivity|].
-    cbn [Flatten.tame_agg] in Ht. cbn [Flatten.tame_nest] in Hn.
+    cbn [Flatten.tame_nest] in Hn.
     cbn [Flatten.flat Flatten.carried_spec].
     destruct it as [k| | | | |n body|body|body].
     - (* PSort *)
-      destruct (IH und part k rest Ht Hn) as [H1 H2].
+      destruct (IH und part k rest Hn) as [H1 H2].
       destruct (flat f und part k rest) as [o s'] eqn:E. cbn [fst snd] in *.
-      split.
-      + rewrite carried_of_app. destruct (und || existsb (is_ne_group key) rest); cbn; exact H1.
-      + intro He. apply H2. eapply ends_agg_cons_false; [|exact He]. reflexivity.
+      split; [|exact H2].
+      rewrite carried_of_app. destruct (und || existsb (is_ne_group key) rest); cbn; exact H1.
     - (* PTake *)
-      destruct (IH und part s rest Ht Hn) as [H1 H2].
+      destruct (IH und part s rest Hn) as [H1 H2].
       destruct (flat f und part s rest) as [o s'] eqn:E.
       destruct (carried_spec f part s rest) as [o2 s2] eqn:E2. cbn [fst snd] in *.
-      split; [rewrite carried_of_take, H1; reflexivity|].
-      intro He. apply H2. eapply ends_agg_cons_false; [|exact He]. reflexivity.
+      split; [rewrite carried_of_take, H1; reflexivity | exact H2].
     - (* PWin *)
-      destruct (IH und part s rest Ht Hn) as [H1 H2].
+      destruct (IH und part s rest Hn) as [H1 H2].
       destruct (flat f und part s rest) as [o s'] eqn:E.
       destruct (carried_spec f part s rest) as [o2 s2] eqn:E2. cbn [fst snd] in *.
-      split; [rewrite carried_of_win, H1; reflexivity|].
-      intro He. apply H2. eapply ends_agg_cons_false; [|exact He]. reflexivity.
-    - (* POther *)
-      destruct (IH und part s rest Ht Hn) as [H1 H2]. split; [exact H1|].
-      intro He. apply H2. eapply ends_agg_cons_false; [|exact He]. reflexivity.
-    - (* PAgg *)
-      apply andb_true_iff in Ht. destruct Ht as [Hc Ht].
-      destruct (in_group part) eqn:Eg; cbn [negb orb] in Hc.
-      + (* inside a group: tame forces the aggregate to be the last transform of the body *)
-        destruct rest as [|x r']; [|discriminate].
-        split.
-        * destruct f; reflexivity.
-        * unfold ends_agg. cbn. discriminate.
-      + rewrite <- Eg in Ht. destruct (IH und part empty rest Ht Hn) as [H1 H2]. rewrite Eg in H2. split; [exact H1|].
-        intros _. apply H2. reflexivity.
+      split; [rewrite carried_of_win, H1; reflexivity | exact H2].
+    - (* POther *) exact (IH und part s rest Hn).
+    - (* PAgg *) exact (IH und part empty rest Hn).
     - (* PGroup *)
-      apply andb_true_iff in Ht. destruct Ht as [Htb Htr].
       apply andb_true_iff in Hn. destruct Hn as [Hn Hnr]. apply andb_true_iff in Hn. destruct Hn as [Hz Hnb].
       apply Nat.eqb_eq in Hz. rewrite Hz. cbn [Nat.add].
-      destruct (IH (match n with S _ => true | O => und || existsb (is_ne_group key) rest end) (Some n) empty body Htb Hnb) as [B1 _].
-      destruct (IH und part empty rest Htr Hnr) as [H1 H2].
+      destruct (IH (match n with S _ => true | O => und || existsb (is_ne_group key) rest end) (Some n) empty body Hnb) as [B1 _].
+      destruct (IH und part empty rest Hnr) as [H1 H2].
       destruct (flat f (match n with S _ => true | O => und || existsb (is_ne_group key) rest end) (Some n) empty body) as [ob sb] eqn:Eb.
       destruct (flat f und part empty rest) as [o s'] eqn:E.
       destruct (carried_spec f (Some n) empty body) as [ob2 sb2] eqn:Eb2.
       destruct (carried_spec f part empty rest) as [o2 s2] eqn:E2. cbn [fst snd] in *.
-      split; [rewrite carried_of_app, B1, H1; reflexivity|].
-      intro He. apply H2. eapply ends_agg_cons_false; [|exact He]. reflexivity.
+      split; [rewrite carried_of_app, B1, H1; reflexivity | exact H2].
     - (* PWindow *)
-      apply andb_true_iff in Ht. destruct Ht as [Ht Htr]. apply andb_true_iff in Ht. destruct Ht as [Hc Htb].
       apply andb_true_iff in Hn. destruct Hn as [Hnb Hnr].
-      destruct (IH (und || existsb (is_ne_group key) rest) part s body Htb Hnb) as [B1 B2].
-      assert (Hb : ends_agg (in_group part) body = false).
-      { unfold ends_agg. destruct (in_group part); [|reflexivity]. cbn [negb orb andb] in *.
-        destruct f as [|f']; [cbn in Hc; discriminate|].
-        apply has_agg_last with (f := f'). destruct (has_agg (S f') body); [discriminate|reflexivity]. }
-      specialize (B2 Hb).
+      destruct (IH (und || existsb (is_ne_group key) rest) part s body Hnb) as [B1 B2].
       destruct (flat f (und || existsb (is_ne_group key) rest) part s body) as [ob sb] eqn:Eb.
       destruct (carried_spec f part s body) as [ob2 sb2] eqn:Eb2. cbn [fst snd] in *. subst sb2.
-      destruct (IH und part sb rest Htr Hnr) as [H1 H2].
+      destruct (IH und part sb rest Hnr) as [H1 H2].
       destruct (flat f und part sb rest) as [o s'] eqn:E.
       destruct (carried_spec f part sb rest) as [o2 s2] eqn:E2. cbn [fst snd] in *.
-      split; [rewrite carried_of_app, B1, H1; reflexivity|].
-      intro He. apply H2. eapply ends_agg_cons_false; [|exact He]. reflexivity.
-    - (* PSub *)
-      destruct (IH und part s rest Ht Hn) as [H1 H2]. split; [exact H1|].
-      intro He. apply H2. eapply ends_agg_cons_false; [|exact He]. reflexivity.
+      split; [rewrite carried_of_app, B1, H1; reflexivity | exact H2].
+    - (* PSub *) exact (IH und part s rest Hn).
   Qed.
 
-  (* a whole query (outside of any group): both the sorts handed out and the sort left in effect *)
-  Corollary flat_carries_order_in_effect_top : forall fuel und s p,
-    Flatten.tame key fuel None p = true ->
-    carried_of (fst (flat fuel und None s p)) = fst (carried_spec fuel None s p) /\
-    snd (flat fuel und None s p) = snd (carried_spec fuel None s p).
+  (* programs without nested groups at all: full strength on that sub-language, whatever the enclosing partition *)
+  Fixpoint no_nested (fuel : nat) (ing : bool) (p : list (pitem key)) : bool :=
+    match fuel with
+    | O => false
+    | S f =>
+      match p with
+      | [] => true
+      | PGroup _ body :: rest => negb ing && no_nested f true body && no_nested f ing rest
+      | PWindow body :: rest => no_nested f ing body && no_nested f ing rest
+      | _ :: rest => no_nested f ing rest
+      end
+    end.
+
+  Lemma no_nested_tame : forall fuel part p, no_nested fuel (in_group part) p = true -> tame_nest fuel part p = true.
   Proof.
-    intros fuel und s p Ht. unfold Flatten.tame in Ht. apply andb_true_iff in Ht. destruct Ht as [Ha Hn].
-    destruct (flat_carries_order_in_effect_partial fuel und None s p Ha Hn) as [H1 H2].
-    split; [exact H1 | apply H2; reflexivity].
+    induction fuel as [|f IH]; intros part p H; [discriminate|].
+    destruct p as [|it rest]; [reflexivity|].
+    cbn [no_nested] in H. cbn [Flatten.tame_nest].
+    destruct it as [k| | | | |n body|body|body]; try (apply IH; exact H).
+    - apply andb_true_iff in H. destruct H as [H Hr]. apply andb_true_iff in H. destruct H as [Hi Hb].
+      destruct part as [m|]; cbn [in_group negb] in Hi; [discriminate|].
+      cbn [pcount Nat.eqb andb]. rewrite (IH (Some n) body Hb). cbn [andb]. apply (IH None rest Hr).
+    - apply andb_true_iff in H. destruct H as [Hb Hr]. rewrite (IH part body Hb), (IH part rest Hr). reflexivity.
   Qed.
 
   (* a pipeline without groups keeps every Sort transform *)
